@@ -30,6 +30,7 @@ import GeoProofs.Lemmas.RELMPointPoint
 import GeoProofs.Lemmas.RELMMultiPoint
 import GeoProofs.Lemmas.RELMOrder5
 import GeoProofs.Lemmas.RELMSym6
+import GeoProofs.Lemmas.RELMEnds2
 import Mathlib.Tactic.NormNum
 
 namespace Geo.Proofs.C01
@@ -1259,6 +1260,34 @@ example : ∃ q : Pos, ∀ X Y, Y ≠ .outside →
       if Y = .inside ∧ q = X then .zero else .empty :=
   relateImpl_point_cols_partial ⟨2, 0⟩ (.triangle ⟨0, 0⟩ ⟨4, 0⟩ ⟨0, 4⟩) (endsNonZero_of_B (by decide +kernel))
     (by decide +kernel) (by decide +kernel)
+
+/-- [T] **The transpose law of the implementation, for all geometries without a zero-length `Line`**
+(exact arithmetic): `relate(b, a) = relate(a, b)ᵀ`, and the code panics for one order iff it does for the
+other — valid and invalid operands alike (self-crossing line work, overlapping collection members,
+degenerate rings, …). The edges `GeometryGraph::new` builds have no two equal consecutive coordinates
+(`buildGraph_distinct`), self-noding and the mutual phase leave sorted lists of valid records on them
+(`freshGraph_edgeWF`, `mutualGraphs_edgeWF`), so every edge end has non-zero length
+(`endsForEdges_nonzero`) and `relateImpl_transpose_partial` applies. -/
+theorem relateImpl_transpose (a b : Geom) (ha : noZeroLine a = true) (hb : noZeroLine b = true) :
+    relateImpl? b a = (relateImpl? a b).map IM.transpose := relateImpl_transpose_noZeroLine a b ha hb
+
+/-- two overlapping members of a collection against a bow-tie ring -/
+example : relateImpl?
+      (.polygon ⟨[⟨0, 0⟩, ⟨2, 2⟩, ⟨2, 0⟩, ⟨0, 2⟩, ⟨0, 0⟩], []⟩)
+      (.collection [.rect ⟨0, 0⟩ ⟨2, 2⟩, .polygon ⟨[⟨1, 1⟩, ⟨3, 1⟩, ⟨3, 3⟩, ⟨1, 3⟩, ⟨1, 1⟩], []⟩, .line ⟨0, 1⟩ ⟨3, 1⟩]) =
+    (relateImpl?
+      (.collection [.rect ⟨0, 0⟩ ⟨2, 2⟩, .polygon ⟨[⟨1, 1⟩, ⟨3, 1⟩, ⟨3, 3⟩, ⟨1, 3⟩, ⟨1, 1⟩], []⟩, .line ⟨0, 1⟩ ⟨3, 1⟩])
+      (.polygon ⟨[⟨0, 0⟩, ⟨2, 2⟩, ⟨2, 0⟩, ⟨0, 2⟩, ⟨0, 0⟩], []⟩)).map IM.transpose :=
+  relateImpl_transpose _ _ (by decide +kernel) (by decide +kernel)
+
+/-- [T] … hence for the total function on such operands when the code does not panic. -/
+theorem relateImpl_transpose_total (a b : Geom) (ha : noZeroLine a = true) (hb : noZeroLine b = true)
+    (hp : (relateImpl? a b).isSome) : relateImpl b a = (relateImpl a b).transpose := by
+  unfold relateImpl
+  rw [relateImpl_transpose a b ha hb]
+  cases h : relateImpl? a b with
+  | none => rw [h] at hp; cases hp
+  | some m => rfl
 
 end Impl
 
